@@ -32,6 +32,14 @@ func NewDisconnectMessage() *DisconnectMessage {
 }
 
 // Decode decodes the message.
+func (m *DisconnectMessage) Len() int {
+	if !m.dirty {
+		return len(m.dbuf)
+	}
+
+	return m.header.Len()
+}
+
 func (m *DisconnectMessage) Decode(src []byte) (int, error) {
 	n, err := m.header.decode(src)
 	if err != nil {
